@@ -5,6 +5,7 @@ import (
 	"errors"
 	"fmt"
 	"net/http"
+	"net/url"
 	"os"
 	"slices"
 	"sort"
@@ -146,7 +147,7 @@ func genRuleSets(t *rapid.T) genCase {
 					// a condition on the first named single wildcard of the route: a value paths are filled with, or none
 					param := ""
 					if firstNamedSingle(e) != "" && rapid.IntRange(0, 2).Draw(t, "withPathParam") == 1 {
-						param = rapid.SampledFrom([]string{"a", "b", "ab", "x"}).Draw(t, "pathParam")
+						param = rapid.SampledFrom([]string{"a", "b", "ab", "x", "a%41", "a%41"}).Draw(t, "pathParam")
 					}
 
 					gr.Params = append(gr.Params, param)
@@ -297,7 +298,10 @@ func refRoutes(c genCase, flags map[string]bool, method string) ([]vkit.RefRoute
 					}
 
 					for _, c := range caps {
-						if want != "" && c.Name == name && c.Value != want {
+						// (the condition sees the captured value decoded, once)
+						decoded, _ := url.PathUnescape(c.Value)
+
+						if want != "" && c.Name == name && decoded != want {
 							return false
 						}
 					}
